@@ -29,6 +29,8 @@ func Run(args []string) error {
 		return runSched(args[1:])
 	case "stress":
 		return runStress(args[1:])
+	case "slow":
+		return runSlow(args[1:])
 	}
 	return fmt.Errorf("unknown mode %q", args[0])
 }
